@@ -153,7 +153,17 @@ def post_once(om, parts, boundary, quoted, M, framing):
         mids = [u.file.read(2) for u in reversed(ups)][::-1]
         tails = [u.file.read() for u in ups]
         seen['interleaved'] = [h + m + t for h, m, t in zip(heads, mids, tails)]
-        return 'ok'
+
+        def stream():
+            # the answer is streamed: the uploads are read once more while the server iterates (after the handler function returned)
+            yield 'o'
+            late = []
+            for u in ups:
+                u.file.seek(0)
+                late.append(u.file.read())
+            seen['late'] = late
+            yield 'k'
+        return stream()
     app.route('/u', 'POST', h)
     b = f'"{boundary}"' if quoted else boundary
     ctype = 'multipart/form-data; boundary=' + b
@@ -162,6 +172,9 @@ def post_once(om, parts, boundary, quoted, M, framing):
         step = M if (len(body) > M and len(body) % 2 == 0) else 7
         pieces = [body[i:i + step] for i in range(0, len(body), step)]
         env = wsgi.environ('POST', '/u', body=refmp.chunked_encode(pieces), ctype=ctype, chunked=True)
+    elif framing == 'cl-short':
+        from props.c06 import ShortStream       # a connection that answers every read with about half of what was asked for
+        env = wsgi.environ('POST', '/u', input=ShortStream(body, 'half'), clen=len(body), ctype=ctype)
     else:
         env = wsgi.environ('POST', '/u', body=body, ctype=ctype)
     c = wsgi.call(app, env)
@@ -184,6 +197,9 @@ def judge(om, parts, boundary, quoted, M, framing):
     if seen.get('interleaved') != exp_inter:
         return ('interleaved-reads', f'uploads read in interleaved pieces (3 bytes of each, 5 bytes of request.body, 2 bytes of each, rest) '
                                      f'give {[x[:20] for x in seen.get("interleaved") or []]!r}, contents are {[x[:20] for x in exp_inter]!r}'), seen, body
+    if seen.get('late') != exp_inter:
+        return ('late-reads', f'uploads read again while the answer is streamed (after the handler returned) give '
+                              f'{[x[:20] for x in seen.get("late") or []]!r}, contents are {[x[:20] for x in exp_inter]!r}'), seen, body
     return None, seen, body
 
 
@@ -268,7 +284,7 @@ def run(res, om, parts, boundary, quoted, M, framing):
 
 def configs_for(i):
     bi = i % len(BOUNDARIES)
-    return BOUNDARIES[bi], (400, 102400)[(i // 2) % 2], ('cl', 'chunked')[i % 2]
+    return BOUNDARIES[bi], (400, 102400)[(i // 2) % 2], ('cl', 'chunked', 'cl-short')[i % 3]
 
 
 def work(spec):
@@ -301,7 +317,7 @@ def work(spec):
             if b == 'all':
                 # thorough: every boundary spelling, rotating threshold / framing
                 for bi, (boundary, quoted) in enumerate(BOUNDARIES):
-                    run(res, om, parts, boundary, quoted, (400, 102400)[(k + bi) % 2], ('cl', 'chunked')[(k // 2 + bi) % 2])
+                    run(res, om, parts, boundary, quoted, (400, 102400)[(k + bi) % 2], ('cl', 'chunked', 'cl-short')[(k // 2 + bi) % 3])
                 k += 1
                 continue
             (boundary, quoted), M, framing = configs_for(k)
